@@ -221,3 +221,90 @@ def digest(tree) -> str:
         if hasattr(leaf, "dtype"):
             h.update(np.asarray(leaf).tobytes())
     return h.hexdigest()
+
+
+# ---------------------------------------------------------------------------------------------------------------
+class RealDataSession:
+    """Trace a REAL training run of fit_to_data (a real flow, the library's own MaximumLikelihoodLoss, a real optimiser).
+
+    Rows are identified by looking their first coordinate up in the original data set (distinct random rows => lossless),
+    parameters by a digest of the trainable leaves at every loss call; the number of optimiser updates is counted by a
+    logging wrapper around the optimiser; validation losses are rank-transformed (order and ties preserved) into the
+    `script` the trace specification expects, and the epoch whose parameters were returned is found by digest."""
+
+    def __init__(self):
+        from flowjax.train.losses import MaximumLikelihoodLoss
+        self.log = Log()
+        self.inner = MaximumLikelihoodLoss()
+
+    def run(self, *, dist, x, condition, max_epochs, patience, batch, val_prop, return_best, optimizer, seed=0):
+        from flowjax.train import fit_to_data
+        log = self.log
+        log.ev.clear()
+        log.keyids.clear()
+        key = jr.key(seed)
+        log.kid(key_bytes(key))
+        xs = np.asarray(x)
+        row_of = {float(v): i for i, v in enumerate(xs[:, 0])}
+        crow_of = None if condition is None else {float(v): i for i, v in enumerate(np.asarray(condition)[:, 0])}
+        gradmark = make_gradmark(log)
+        inner = self.inner
+
+        def rec(xi, ci, k, *leaves):
+            log.ev.append({"k": "loss", "rows": [row_of[float(v)] for v in np.asarray(xi)],
+                           "crows": [row_of[float(v)] for v in np.asarray(xi)] if crow_of is None else
+                                    [crow_of[float(v)] for v in np.asarray(ci)],
+                           "key": log.kid(k), "dig": digest(leaves)})
+
+        def loss_fn(params, static, x, condition=None, key=None):
+            leaves = [l for l in jax.tree_util.tree_leaves(params)]
+            leaves[0] = gradmark(leaves[0]) if leaves else None
+            c0 = condition[:, 0] if condition is not None else x[:, 0]
+            jax.debug.callback(rec, x[:, 0], c0, key_bytes(key), *[jax.lax.stop_gradient(l) for l in leaves], ordered=True)
+            return inner(params, static, x, condition, key)
+
+        def init(params):
+            return optimizer.init(params)
+
+        def update(grads, state, params=None):
+            jax.debug.callback(lambda: log.ev.append({"k": "update"}), ordered=True)
+            return optimizer.update(grads, state, params)
+
+        params0, _ = eqx.partition(dist, eqx.is_inexact_array)
+        out, losses = fit_to_data(key, dist, x, condition=condition, loss_fn=loss_fn, max_epochs=max_epochs,
+                                  max_patience=patience, batch_size=batch, val_prop=val_prop,
+                                  optimizer=optax.GradientTransformation(init, update), return_best=return_best,
+                                  show_progress=False)
+        jax.effects_barrier()
+        ev = fold(log.ev)
+        n = xs.shape[0]
+        nval = round(val_prop * n)
+        # number of updates before each call; digest -> update count at the validation calls
+        upd, at_val = 0, {}
+        for e in ev:
+            if e["k"] == "loss":
+                e["theta"] = upd
+                if not e["grad"]:
+                    at_val.setdefault(e.pop("dig"), upd)
+                else:
+                    e.pop("dig")
+            else:
+                upd += 1
+        vals = [float(v) for v in losses["val"]]
+        order = sorted(set(vals))
+        ranks = [order.index(v) + 1 for v in vals]
+        script = [10_000 + i for i in range(upd + 2)]
+        upe = (upd // len(vals)) if vals else 0
+        for e_i, r in enumerate(ranks, start=1):
+            script[e_i * upe] = r
+        po, _ = eqx.partition(out, eqx.is_inexact_array)
+        dret = digest(jax.tree_util.tree_leaves(po))
+        d0 = digest(jax.tree_util.tree_leaves(params0))
+        theta_ret = at_val.get(dret, 0 if dret == d0 else -1)
+        finite = all(np.isfinite(v) for v in vals)
+        return {
+            "cfg": {"n": n, "batch": batch, "nval": nval, "maxep": max_epochs, "pat": patience, "rb": bool(return_best),
+                    "hascond": condition is not None, "vp": val_prop, "seed": seed, "real": True},
+            "script": script, "ev": ev,
+            "ret": {"theta": theta_ret, "ntl": len(losses["train"]), "nvl": len(vals), "val": ranks},
+        }, finite
